@@ -245,6 +245,9 @@ class OpModeSet(Contract):
         node, drive = mk_node_with_drive(w, "SWITCH ON DISABLED", False)
         sup = w.int("supported", 0, 0xFFFFFFFF)
         drive.fields["supported"] = sup
+        # the mode the drive displays beforehand is any defined one - also the requested one, also one it does not advertise
+        codes = sorted(set(cia402.MODE_CODE.values()))
+        drive.fields["mode"] = w.choose(w.int("displayed_mode", min(codes), max(codes)), codes)
         w.pre.update(sup=sup, mode=case)
         return Call(("setattr", node, "op_mode"), [case])
 
